@@ -121,10 +121,15 @@ func shouldEscapeTextNode(data string) bool {
 // and can be written verbatim: it must not contain the sequence that would end the element.
 // Static template text never contains that sequence (the template parser would have ended
 // the element there); an interpolated value that does is entity-escaped like any other text.
-func isRawTextBody(tag, data string) bool {
-	switch tag {
+// These are raw-text elements in the HTML namespace only: inside <svg> or <math> an element of
+// the same name is an ordinary foreign element whose content the parser reads as markup.
+func isRawTextBody(elem *html.Node, data string) bool {
+	if elem == nil || elem.Type != html.ElementNode || elem.Namespace != "" {
+		return false
+	}
+	switch elem.Data {
 	case "xmp", "iframe", "noembed", "noframes":
-		return !strings.Contains(strings.ToLower(data), "</"+tag)
+		return !strings.Contains(strings.ToLower(data), "</"+elem.Data)
 	}
 	return false
 }
@@ -188,7 +193,7 @@ func renderPreformatted(w io.Writer, node *html.Node) {
 	for c := node.FirstChild; c != nil; c = c.NextSibling {
 		switch c.Type {
 		case html.TextNode:
-			if node.Data == "script" || node.Data == "style" || isRawTextBody(node.Data, c.Data) || !shouldEscapeTextNode(c.Data) {
+			if node.Data == "script" || node.Data == "style" || isRawTextBody(node, c.Data) || !shouldEscapeTextNode(c.Data) {
 				_, _ = w.Write([]byte(c.Data))
 			} else {
 				_, _ = w.Write([]byte(html.EscapeString(c.Data)))
@@ -231,7 +236,7 @@ func renderNodeWithContext(ctx VueContext, w io.Writer, node *html.Node, indent 
 		spaces := getIndent(indent)
 		parentTag := ctx.CurrentTag()
 		// Skip HTML escaping inside script and style tags
-		if parentTag == "script" || parentTag == "style" || isRawTextBody(parentTag, node.Data) {
+		if parentTag == "script" || parentTag == "style" || isRawTextBody(node.Parent, node.Data) {
 			_, _ = w.Write([]byte(spaces + node.Data))
 		} else if shouldEscapeTextNode(node.Data) {
 			_, _ = w.Write([]byte(spaces + html.EscapeString(node.Data)))
@@ -326,7 +331,7 @@ func renderNodeWithContext(ctx VueContext, w io.Writer, node *html.Node, indent 
 		} else if childCount == 1 && firstChild.Type == html.TextNode {
 			_, _ = w.Write([]byte(spaces + "<" + tagName + renderAttrs(node.Attr) + ">" + keepLeadingNewline(tagName, firstChild.Data)))
 			// Skip HTML escaping inside script and style tags
-			if tagName == "script" || tagName == "style" || isRawTextBody(tagName, firstChild.Data) {
+			if tagName == "script" || tagName == "style" || isRawTextBody(node, firstChild.Data) {
 				_, _ = w.Write([]byte(firstChild.Data))
 			} else if shouldEscapeTextNode(firstChild.Data) {
 				_, _ = w.Write([]byte(html.EscapeString(firstChild.Data)))
